@@ -252,7 +252,13 @@ class Activation(object):
         self.signal = signal
 
     def __bool__(self) -> bool:
-        return self.signal is None or not self.signal._revoked
+        # An activation is void if its signal was revoked or if its target has
+        # been closed in the meantime. The latter happens if a wake-up cannot be
+        # revoked on closing, e.g. one owned by a not yet finalised async generator.
+        return (
+            (self.signal is None or not self.signal._revoked)
+            and getattr(self.target, 'cr_frame', self) is not None
+        )
 
     def __repr__(self):
         return '<%s of %s%s%s>' % (
